@@ -104,7 +104,11 @@ class MemPerDocWriter(base.PerDocWriterWithColumns):
             self._lengths[fieldname] = length
 
     def add_vector_items(self, fieldname, fieldobj, items):
-        self._vectors[fieldname] = tuple(items)
+        items = tuple(items)
+        if not items:
+            # Like the on-disk codec: no terms, no vector
+            return
+        self._vectors[fieldname] = items
 
     def finish_doc(self):
         with self._segment._lock:
